@@ -81,7 +81,7 @@ def run(tier, replay=None):
     jobs = [("ReceiverShift_MC", f"ReceiverShift_{tier}.cfg", dict(workers=wk, required_actions=("Upload",))),
             ("ReceiverShift_MC", "ReceiverShift_ts12800_quick.cfg", dict(workers=wk)),
             ("ReceiverShift_MC", "ReceiverShift_snr0_manifest.cfg", dict(workers=wk)),
-            ("ReceiverShift_MC", f"ReceiverShift_fixed_{tier}.cfg", dict(workers=wk)),
+            ("ReceiverShift_MC", f"ReceiverShift_proposed_{tier}.cfg", dict(workers=wk)),
             ("ReceiverShift_MC", "ReceiverShift_cex_manifest.cfg", dict(workers=1, expect="violation", expect_violated=("InvManifest",), coverage=False)),
             ("ReceiverShift_MC", "ReceiverShift_witness_shifted.cfg", dict(workers=1, expect="violation", expect_violated=("NeverShifted",), coverage=False)),
             ("ReceiverShift_MC", "ReceiverShift_witness_kept.cfg", dict(workers=1, expect="violation", expect_violated=("NeverKept",), coverage=False))]
@@ -89,7 +89,8 @@ def run(tier, replay=None):
     jobs += [("ReceiverShift_MC", g, dict(workers=1, coverage=False)) for g in gen_cfgs]
     if tier == "thorough":
         jobs += [("ReceiverShift_MC", "ReceiverShift_same_quick.cfg", dict(workers=wk)),
-                 ("ReceiverShift_MC", "ReceiverShift_fixed_ts12800.cfg", dict(workers=wk))]
+                 ("ReceiverShift_MC", "ReceiverShift_orig_quick.cfg", dict(workers=wk)),
+                 ("ReceiverShift_MC", "ReceiverShift_proposed_ts12800.cfg", dict(workers=wk))]
     res = c.models(jobs, parallel=4)
     for r, name in ((res[5], "NeverShifted"), (res[6], "NeverKept")):
         if name not in r.violated:
